@@ -892,10 +892,12 @@ def _option_walkers (ctx, repo):
 def _sample_roundtrips (ctx, repo):
   """Small fixed headers, by evaluation of both directions on sample field values: hdr() evaluated to concrete bytes, parse() evaluated
   on those bytes, the fields compared - including the boundary values a presence flag depends on (a field that is 0 is not a field
-  that is absent)."""
-  SAMPLES = [('vxlan', 'vxlan', 'vni', [None, 0, 5, 0xabcdef], {})]
+  that is absent) and the extremes of bit-fields packed together."""
+  SAMPLES = [('vxlan', 'vxlan', [{'vni': None}, {'vni': 0}, {'vni': 5}, {'vni': 0xabcdef}]),
+             ('mpls', 'mpls', [{'label': 0, 'tc': 0, 's': 1, 'ttl': 0}, {'label': 0xfffff, 'tc': 7, 's': 1, 'ttl': 255}, {'label': 0x12345, 'tc': 5, 's': 1, 'ttl': 64}, {'label': 16, 'tc': 1, 's': 1, 'ttl': 1}]),
+             ('vlan', 'vlan', [{'pcp': 0, 'cfi': 0, 'id': 0, 'eth_type': 0x88b5}, {'pcp': 7, 'cfi': 1, 'id': 0xfff, 'eth_type': 0x88b5}, {'pcp': 5, 'cfi': 0, 'id': 0x123, 'eth_type': 0x88b5}])]
   n_dec = 0
-  for mn, cn, fld, vals, extra in SAMPLES:
+  for mn, cn, samples in SAMPLES:
     mod = repo.mod(PK + '.' + mn); cls = mod.classes.get(cn) if mod is not None else None
     hf = cls.methods.get('hdr') if cls is not None else None; pf = cls.methods.get('parse') if cls is not None else None
     if hf is None or pf is None: continue
@@ -908,26 +910,30 @@ def _sample_roundtrips (ctx, repo):
       except Exception: pass
     gh, gp = q.cfg_of(hf), q.cfg_of(pf)
     is_log = lambda e: isinstance(e, ast.Call) and call_name(e) in ('msg', 'err', 'warn')
+    pure = q.PureCallHook(repo, mod)
     def hook (call, env=None):
-      if isinstance(call.func, ast.Name) and call.func.id in ('ethernet', 'isinstance'): return (True, True if call.func.id == 'isinstance' else 'NEXT')
-      return q.PureCallHook(repo, mod)(call, env) if getattr(q.PureCallHook(repo, mod), 'wants_env', False) else q.PureCallHook(repo, mod)(call)
+      if isinstance(call.func, ast.Name) and call.func.id == 'isinstance': return (True, True)
+      if isinstance(call.func, ast.Name) and (call.func.id in ('ethernet', cn) or call.func.id in mod.classes): return (True, 'NEXT')
+      if isinstance(call.func, ast.Attribute) and call.func.attr in ('parse_next', 'set_payload'): return (True, 'NEXT')
+      return pure(call, env) if getattr(pure, 'wants_env', False) else pure(call)
     hook.wants_env = True
     wrong = []; unknown = False
-    for v in vals:
+    for smp in samples:
       outs = set()
-      for p_, e_ in q.paths_under(repo, mod, gh, q.Env(dict(consts, **{'self.' + fld: v}), [], q.PureCallHook(repo, mod)), gh.entry, [n for n in gh.nodes if n.kind == 'return'], cls, limit=20):
+      for p_, e_ in q.paths_under(repo, mod, gh, q.Env(dict(consts, **dict(('self.' + k_, v_) for k_, v_ in smp.items())), [], pure), gh.entry, [n for n in gh.nodes if n.kind == 'return'], cls, limit=20):
         try: outs.add(q.eval_env2(repo, mod, p_[-1].ast.value, e_, cls))
         except Exception: outs.add('?')
       if len(outs) != 1 or not isinstance(list(outs)[0], bytes): unknown = True; continue
       raw = list(outs)[0] + b'\0' * 14
-      back = set()
-      for p_, e_ in q.paths_under(repo, mod, gp, q.Env(dict(consts, **{pf.params[1]: raw})), [(is_log, None)], hook) if False else q.paths_under(repo, mod, gp, q.Env(dict(consts, **{pf.params[1]: raw}), [(is_log, None)], hook), gp.entry, [gp.exit], cls, limit=20):
-        back.add(e_.exact.get('self.' + fld, '?') if 'self.' + fld in e_.exact else '?')
-      if len(back) != 1 or '?' in back: unknown = True; continue
+      back = []
+      for p_, e_ in q.paths_under(repo, mod, gp, q.Env(dict(consts, **{pf.params[1]: raw}), [(is_log, None)], hook), gp.entry, [gp.exit], cls, limit=20):
+        back.append(dict((k_, e_.exact.get('self.' + k_, '?')) for k_ in smp))
+      if len(back) != 1 or '?' in back[0].values(): unknown = True; continue
       n_dec += 1
-      if list(back)[0] != v: wrong.append((v, list(outs)[0], list(back)[0]))
+      if back[0] != smp: wrong.append((smp, list(outs)[0], back[0]))
+    flds = sorted(samples[0])
     if unknown and not wrong:
-      ctx.undecided('R-AGREE', hf, "%s.%s survives hdr() -> parse() on sample values" % (cn, fld), "not evaluable for every sample", hf, 'D2'); continue
-    ctx.ob('R-AGREE', hf, "%s.%s survives hdr() -> parse() on sample values %s" % (cn, fld, vals), not wrong, "evaluated both directions" if not wrong else
-           "%s = %r is emitted as %r, which parse() reads back as %r: the header field does not survive build -> bytes -> parse (lengths and checksums stay valid, nothing raises)" % ((fld,) + wrong[0]), hf, 'D2')
+      ctx.undecided('R-AGREE', hf, "%s fields %s survive hdr() -> parse() on sample values" % (cn, flds), "not evaluable for every sample", hf, 'D2'); continue
+    ctx.ob('R-AGREE', hf, "%s fields %s survive hdr() -> parse() on %d sample headers" % (cn, flds, len(samples)), not wrong, "evaluated both directions" if not wrong else
+           "%r is emitted as %r, which parse() reads back as %r: the header fields do not survive build -> bytes -> parse (lengths and checksums stay valid, nothing raises)" % wrong[0], hf, 'D2')
   ctx.stat('sample round trips decided', n_dec)
